@@ -122,3 +122,19 @@ func spec_itemStr(g *Grammar, r int, d int) string { panic("spec") }
 //@ allocates graph.GraghNode
 //@ loop 0: invariant Node != nil && fresh(Node) && Node.StateNumber == IC.Index && len(Node.Children) == idx0 && unchanged(graph.GraghNode)
 //@ loop 0: invariant forall i int :: 0 <= i && i < idx0 ==> Node.Children[i] == spec_itemStr(g, IC.Items[i].RuleIndex, IC.Items[i].Dot)
+
+// C18: the debug listing prints, for the state numbered IC.Index, each item as "lhs--> symbols before the dot @ symbols
+// after the dot" and each transition as "at <symbol> goto <target state>" - the same numbers the tables use
+//@ func (*Grammar).ShowCloure
+//@ props C18
+//@ requires wfRules(g) && okItems(g, IC) && (forall k int :: 0 <= k && k < len(IC.GoTo) ==> IC.GoTo[k] != nil && IC.GoTo[k].Sym != nil)
+//@ emits [C18] "--------state %d------------\n" arg1 == IC.Index
+//@ emits [C18] "%s-->" arg1 == g.ProductoinRules[it.RuleIndex].LeftPart.Name
+//@ emits [C18] `" %s "` arg1 == sy.Name
+//@ emits [C18] "at %s goto %d \n" arg1 == g.Sym.Name
+//@ emits [C18] "at %s goto %d \n" arg2 == g.ItemCl
+//@ emits [C18] "at %s goto %d \n" assert g == IC.GoTo[idx3]
+//@ loop 1: invariant r == before(r) && it == before(it)
+//@ loop 2: invariant r == before(r) && it == before(it)
+// the symbols printed before "@" are rhs[0..Dot), those after it rhs[Dot..)
+//@ loop 1: invariant [C18] rng1 == g.ProductoinRules[it.RuleIndex].RighPart[:it.Dot]
